@@ -24,7 +24,8 @@ EXPLANATION = (
     'named differently; (WMC.2) the serial counter is only pre-incremented in the announce handler '
     'and a request\'s serial is assigned only from it; (WIRE.1) the unlinked slot enters through the '
     'same handler.  strtol leniency is noted, not claimed.'
-    ' Rounds 8-9: (WMC.6) the core\'s handlers of X and x call nothing that reaches the sender.')
+    ' Rounds 8-9: (WMC.6) the core\'s handlers of X and x call nothing that reaches the sender.'
+    ' Hunt round 1: (TAB.3) where a reply is acted on (the awaited bit given back, a verdict), what the path learned about the text rules out every decoy that merely begins like a keyword (OKAY, NOTICE, AGAINST, MOREOVER ...): the keyword was compared whole and the byte after it found to be the terminator or the blank; (WMC.2) a lookup on a refusing path of the announcement handler is excused only when its result goes nowhere but to the withdrawing handler.')
 ASSUMPTIONS = ['clang 14 CFG', 'strtol/strtoul(base 16) accept exactly what %x prints plus lenient forms the daemon never emits']
 
 
@@ -575,6 +576,9 @@ def reply_arms_silent(P, R, rule='C04.WMC.6'):
 
 def run(P, R, tier):
     reply_arms_silent(P, R)
+    # a text that merely begins like a keyword is 'every other reply'
+    from . import c02 as _c02
+    _c02.decoys_unrecognised(P, R, 'C04.TAB.3')
     r, sepch, idv, serv = tag_tables(P, R)
     canonical = validated_return(P, R, r, sepch, idv, serv)
     cl = lookup_discipline(P, R)
